@@ -255,3 +255,150 @@ pub struct Script {
     /// peer names that participate (the first is the init peer)
     pub peers: Vec<String>,
 }
+
+fn arg_vars(a: &Arg, out: &mut Vec<String>) {
+    match a {
+        Arg::Var(x) | Arg::Stream(x) | Arg::StreamMap(x) | Arg::Canon(x) | Arg::CanonMap(x) => out.push(x.clone()),
+        Arg::Lens(x, p) | Arg::CanonLens(x, p) | Arg::CanonMapLens(x, p) => {
+            out.push(x.clone());
+            // scalar accessors inside the path: .[name]
+            for seg in p.split('.') {
+                if let Some(inner) = seg.strip_prefix('[').and_then(|s| s.strip_suffix(']')) {
+                    if inner.parse::<u64>().is_err() {
+                        out.push(inner.to_string());
+                    }
+                }
+            }
+        }
+        _ => {}
+    }
+}
+
+/// (defined variables, used variables) of one instruction node itself (not of its children).
+pub fn defs_uses(i: &I) -> (Vec<String>, Vec<String>) {
+    let mut d = vec![];
+    let mut u = vec![];
+    match i {
+        I::Call { peer, args, out, .. } => {
+            match peer {
+                PeerRef::Var(x) | PeerRef::Lens(x, _) => u.push(x.clone()),
+                _ => {}
+            }
+            for a in args {
+                arg_vars(a, &mut u);
+            }
+            match out {
+                Out::Scalar(x) | Out::Stream(x) => d.push(x.clone()),
+                Out::None => {}
+            }
+        }
+        I::Fold { iterable, .. } => arg_vars(iterable, &mut u),
+        I::Ap { src, dst } => {
+            arg_vars(src, &mut u);
+            d.push(dst.clone());
+        }
+        I::ApMap { key, value, map } => {
+            arg_vars(key, &mut u);
+            arg_vars(value, &mut u);
+            d.push(map.clone());
+        }
+        I::Canon { peer, src, dst } => {
+            if let PeerRef::Var(x) | PeerRef::Lens(x, _) = peer {
+                u.push(x.clone());
+            }
+            u.push(src.clone());
+            d.push(dst.clone());
+        }
+        I::Match(a, b, _) | I::Mismatch(a, b, _) => {
+            arg_vars(a, &mut u);
+            arg_vars(b, &mut u);
+        }
+        I::Fail(FailArg::Arg(a)) => arg_vars(a, &mut u),
+        _ => {}
+    }
+    (d, u)
+}
+
+fn all_defs(i: &I) -> Vec<String> {
+    let mut v = vec![];
+    walk(i, &mut |x| v.extend(defs_uses(x).0));
+    v
+}
+fn all_uses(i: &I) -> Vec<String> {
+    let mut v = vec![];
+    walk(i, &mut |x| v.extend(defs_uses(x).1));
+    v
+}
+
+/// True if some scalar is defined in one branch of a `par` and used in the other branch of the same `par`.
+pub fn cross_par_dependency(ast: &I) -> bool {
+    let mut found = false;
+    walk(ast, &mut |x| {
+        if let I::Par(a, b) = x {
+            let (da, db) = (all_defs(a), all_defs(b));
+            let (ua, ub) = (all_uses(a), all_uses(b));
+            let scalar = |n: &String| !n.starts_with('$') && !n.starts_with('%');
+            if da.iter().any(|d| scalar(d) && ub.contains(d)) || db.iter().any(|d| scalar(d) && ua.contains(d)) {
+                found = true;
+            }
+        }
+    });
+    found
+}
+
+/// True if some scalar is defined inside a branch of a `par` and used outside that branch (in the sibling
+/// branch or after the par): the par can complete, and execution can move on, before the definition ran.
+pub fn par_escaping_dependency(ast: &I) -> bool {
+    fn go(i: &I, root: &I, found: &mut bool) {
+        if let I::Par(a, b) = i {
+            for (inside, _other) in [(a, b), (b, a)] {
+                let defs = all_defs(inside);
+                let inner_uses = all_uses(inside);
+                let _ = inner_uses;
+                // uses anywhere in the script that are not inside this branch
+                let mut outside_uses = vec![];
+                collect_uses_outside(root, inside, &mut outside_uses);
+                if defs.iter().any(|d| !d.starts_with('$') && !d.starts_with('%') && outside_uses.contains(d)) {
+                    *found = true;
+                }
+            }
+        }
+        match i {
+            I::Seq(a, b) | I::Par(a, b) | I::Xor(a, b) => {
+                go(a, root, found);
+                go(b, root, found);
+            }
+            I::Fold { body, last, .. } => {
+                go(body, root, found);
+                if let Some(l) = last {
+                    go(l, root, found);
+                }
+            }
+            I::New(_, b) | I::Match(_, _, b) | I::Mismatch(_, _, b) => go(b, root, found),
+            _ => {}
+        }
+    }
+    fn collect_uses_outside(i: &I, skip: &I, out: &mut Vec<String>) {
+        if std::ptr::eq(i, skip) {
+            return;
+        }
+        out.extend(defs_uses(i).1);
+        match i {
+            I::Seq(a, b) | I::Par(a, b) | I::Xor(a, b) => {
+                collect_uses_outside(a, skip, out);
+                collect_uses_outside(b, skip, out);
+            }
+            I::Fold { body, last, .. } => {
+                collect_uses_outside(body, skip, out);
+                if let Some(l) = last {
+                    collect_uses_outside(l, skip, out);
+                }
+            }
+            I::New(_, b) | I::Match(_, _, b) | I::Mismatch(_, _, b) => collect_uses_outside(b, skip, out),
+            _ => {}
+        }
+    }
+    let mut found = false;
+    go(ast, ast, &mut found);
+    found
+}
